@@ -3,6 +3,7 @@
   The driver never defaults on a malformed request: it answers `(bad-op …)`.
 -/
 import Sfv.Driver.Sexp
+import Sfv.Driver.Nav
 import Sfv.Model.Container
 import Sfv.Model.Evolve
 import Sfv.Model.SchemaDiff
@@ -217,7 +218,10 @@ def step (st : DState) (line : String) : DState × String :=
       match st.env.lookup name, parseV v with
       | some ty, some v => (st, "(ok " ++ showTV ty v ++ ")")
       | _, _ => (st, "(bad-op canon)")
-    | _ => (st, "(bad-op unknown)")
+    | sx =>
+      match navRequest sx with
+      | some r => (st, r)
+      | none => (st, "(bad-op unknown)")
 
 partial def loop (h : IO.FS.Stream) (out : IO.FS.Stream) (st : DState) : IO Unit := do
   let line ← h.getLine
